@@ -2,6 +2,7 @@
 import itertools, os, re, warnings
 warnings.filterwarnings("ignore")
 from fractions import Fraction as F
+from harness.common import NATURAL, net
 from tools.framework import Case, Err
 from harness.midi_common import *
 
@@ -46,7 +47,18 @@ def tun_note(t, string, fret, maxfret):
     return [n.name, n.octave]
 
 def tun_fingering(t, notes, max_distance):
-    r = mk_tuning(t).find_fingering([note_of(n) for n in notes], max_distance)
+    # the same notes in one of the argument forms the function accepts, chosen by the input itself: Note objects, note
+    # strings in the given order, or (when that changes nothing: sorted, all pitches different) a NoteContainer
+    from mingus.containers import NoteContainer
+    form = (sum(n[1] for n in notes) + max_distance + len(notes)) % 3
+    ps = [12 * n[1] + NATURAL[n[0][0]] + net(n[0]) for n in notes]
+    if form == 1:
+        arg = ["%s-%d" % (n[0], n[1]) for n in notes]
+    elif form == 2 and ps == sorted(ps) and len(set(ps)) == len(ps):
+        arg = NoteContainer([note_of(n) for n in notes])
+    else:
+        arg = [note_of(n) for n in notes]
+    r = mk_tuning(t).find_fingering(arg, max_distance)
     return [[list(p) for p in f] for f in r]
 
 def tun_chord(t, names, max_distance, maxfret, max_fingers):
@@ -89,8 +101,18 @@ def tab_composition(comp, width):
     c.set_author(author, email)
     c.description = description
     for t in tracks:
-        c.add_track(mk_track(t))
+        tr = mk_track(t[:3])
+        if len(t) > 3 and t[3] is not None:
+            tr.set_tuning(mk_tuning(t[3]))          # this track on its own tuning; the others on the default
+        c.add_track(tr)
     return lines(tablature.from_Composition(c, width))
+
+def tab_composition_safe(comp, width):
+    from tools.framework import err_of
+    try:
+        return tab_composition(comp, width)
+    except Exception as e:
+        return err_of(e)
 
 IMPL = {"tun.frets": tun_frets, "tun.note": tun_note, "tun.fingering": tun_fingering, "tun.chord": tun_chord,
         "tun.get": tun_get, "tun.gets": tun_gets, "tab.note": tab_note, "tab.nc": tab_nc, "tab.bar": tab_bar,
@@ -219,6 +241,15 @@ def cases(tier, rng):
                 notes.append([["C", "Db", "D", "D#", "E", "F", "Gb", "G", "G#", "A", "A#", "B"][pc], o])
             out.append(Case("tun.fingering", [t, notes, rng.randint(1, 6)], tag="fingering"))
         out.append(Case("tun.fingering", [t, [], 4], tag="fingering"))
+        # the same note twice, and notes given from high to low (entry i must sound notes[i])
+        ops_ = open_pitches(t)
+        for base in (ops_[0] + 7, ops_[-1] + 2):
+            o_, pc_ = divmod(base, 12)
+            nm_ = ["C", "C#", "D", "Eb", "E", "F", "F#", "G", "Ab", "A", "Bb", "B"][pc_]
+            for md_ in (3, 4, 5):
+                out.append(Case("tun.fingering", [t, [[nm_, o_], [nm_, o_]], md_], tag="fingering/doubled"))
+                o2, pc2 = divmod(base - 5, 12)
+                out.append(Case("tun.fingering", [t, [[nm_, o_], [["C", "C#", "D", "Eb", "E", "F", "F#", "G", "Ab", "A", "Bb", "B"][pc2], o2]], md_], tag="fingering/descending"))
     singles = [r for r in reg if not any(isinstance(x, list) for x in r[2])]
     guitars = [r for r in singles if "uitar" in r[0] or "Ukulele" in r[0] or "Banjo" in r[0]]
     from harness.c04 import ALL as _K
@@ -262,6 +293,15 @@ def cases(tier, rng):
         if t is None or t == STD:
             trs = [["t", None, [tab_bar_payload(rng, opens) for _ in range(rng.randint(0, 4))]] for _ in range(rng.randint(1, 3))]
             out.append(Case("tab.composition", [[rng.choice(["Untitled", "a title"]), rng.choice(["", "sub"]), rng.choice(["", "me"]), rng.choice(["", "me@x.org"]), rng.choice(["", "some words " * 12]), trs], rng.choice([80, 100, 120, 160])], tag="tab:composition"))
+    # compositions whose tracks have DIFFERENT tunings (a tuned track before, between and after untuned ones)
+    bass = ["E-1", "A-1", "D-2", "G-2"]
+    uke = ["G-4", "C-4", "E-4", "A-4"]
+    for _ in range(12 if tier == "quick" else 120):
+        def trk(tun):
+            opens_ = open_pitches(tun or STD)
+            return ["t", None, [tab_bar_payload(rng, opens_) for _ in range(rng.randint(1, 3))], tun]
+        for layout in ([bass, None], [None, uke], [None, bass, None], [uke, bass], [bass, None, uke]):
+            out.append(Case("tab.composition", [["mixed", "", "", "", "", [trk(t_) for t_ in layout]], rng.choice([80, 100, 120, 160])], tag="tab:composition-mixed"))
     out.append(Case("tab.bar", [None, ["C", 4, 4, []], 40], tag="tab:bar"))
     out.append(Case("tab.track", [None, ["t", None, []], 80], tag="tab:track"))
     return out
@@ -406,6 +446,27 @@ def oracle(c, obs):
         if not tab_room(t, bar, w):
             return None                     # outside the stated domain: an entry gets no column of its own
         return check_tab(obs, opens, [sorted(npitch(x) for x in ns) for ns in sounding], header_lines=1)
+    elif fn == "tab.composition" and any(len(tr) > 3 and tr[3] is not None for tr in a[0][5]):
+        # tracks on different tunings: every track must be drawn exactly as it is drawn alone (on ITS tuning)
+        comp, w = a
+        if isinstance(obs, Err):
+            singles_err = [tab_composition_safe(comp[:5] + [[tr]], w) for tr in comp[5]]
+            return None if any(isinstance(x, Err) for x in singles_err) else "a composition of playable tracks raised %s" % obs.name
+        is_string = lambda ln: "|" in ln and "-" in ln
+        multi = [ln for ln in obs if is_string(ln)]
+        total = 0
+        for j, tr in enumerate(comp[5]):
+            single = tab_composition_safe(comp[:5] + [[tr]], w)
+            if isinstance(single, Err):
+                return None
+            want = [ln for ln in single if is_string(ln)]
+            total += len(want)
+            it = iter(multi)
+            if not all(any(x == y for y in it) for x in want):
+                return "track %d of the composition is not drawn as it is drawn alone on its own tuning (%d string lines expected)" % (j, len(want))
+        if total != len(multi):
+            return "the composition has %d string lines, its tracks drawn alone have %d" % (len(multi), total)
+        return None
     elif fn in ("tab.track", "tab.composition"):
         if fn == "tab.track":
             t, track, w = a
